@@ -159,3 +159,79 @@ impl MockVerifier {
         e.storage().persistent().get(&VKey::Recovery(old_account))
     }
 }
+
+// ---------------------------------------------------------------------------------------------
+// The library's REAL compliance contract (module registry + hook dispatch) and scripted modules.
+
+use stellar_tokens::rwa::compliance::storage as comp;
+use stellar_tokens::rwa::compliance::ComplianceHook;
+use stellar_tokens::rwa::utils::token_binder;
+
+#[contract]
+pub struct RealCompliance;
+
+#[contractimpl]
+impl RealCompliance {
+    pub fn bind_token(e: &Env, token: Address) {
+        token_binder::bind_token(e, &token);
+    }
+    pub fn add_module_to(e: &Env, hook: ComplianceHook, module: Address) {
+        comp::add_module_to(e, hook, module);
+    }
+    pub fn remove_module_from(e: &Env, hook: ComplianceHook, module: Address) {
+        comp::remove_module_from(e, hook, module);
+    }
+    pub fn transferred(e: &Env, from: Address, to: Address, amount: i128, token: Address) {
+        comp::transferred(e, from, to, amount, token);
+    }
+    pub fn created(e: &Env, to: Address, amount: i128, token: Address) {
+        comp::created(e, to, amount, token);
+    }
+    pub fn destroyed(e: &Env, from: Address, amount: i128, token: Address) {
+        comp::destroyed(e, from, amount, token);
+    }
+    pub fn can_transfer(e: &Env, from: Address, to: Address, amount: i128, token: Address) -> bool {
+        comp::can_transfer(e, from, to, amount, token)
+    }
+    pub fn can_create(e: &Env, to: Address, amount: i128, token: Address) -> bool {
+        comp::can_create(e, to, amount, token)
+    }
+}
+
+/// Scripted compliance module: verdicts are flags, notifications are logged.
+#[contract]
+pub struct MockModule;
+
+#[contractimpl]
+impl MockModule {
+    pub fn set_flags(e: &Env, allow_transfer: bool, allow_create: bool) {
+        e.storage().instance().set(&CKey::AllowTransfer, &allow_transfer);
+        e.storage().instance().set(&CKey::AllowCreate, &allow_create);
+    }
+    pub fn log(e: &Env) -> Vec<Note> {
+        e.storage().instance().get(&CKey::Log).unwrap_or(Vec::new(e))
+    }
+    pub fn reset_log(e: &Env) {
+        e.storage().instance().remove(&CKey::Log);
+    }
+    fn push(e: &Env, n: Note) {
+        let mut l: Vec<Note> = e.storage().instance().get(&CKey::Log).unwrap_or(Vec::new(e));
+        l.push_back(n);
+        e.storage().instance().set(&CKey::Log, &l);
+    }
+    pub fn on_transfer(e: &Env, from: Address, to: Address, amount: i128, token: Address) {
+        Self::push(e, Note { what: symbol_short!("transfer"), from: Some(from), to: Some(to), amount, token });
+    }
+    pub fn on_created(e: &Env, to: Address, amount: i128, token: Address) {
+        Self::push(e, Note { what: symbol_short!("created"), from: None, to: Some(to), amount, token });
+    }
+    pub fn on_destroyed(e: &Env, from: Address, amount: i128, token: Address) {
+        Self::push(e, Note { what: symbol_short!("destroyed"), from: Some(from), to: None, amount, token });
+    }
+    pub fn can_transfer(e: &Env, _from: Address, _to: Address, _amount: i128, _token: Address) -> bool {
+        e.storage().instance().get(&CKey::AllowTransfer).unwrap_or(true)
+    }
+    pub fn can_create(e: &Env, _to: Address, _amount: i128, _token: Address) -> bool {
+        e.storage().instance().get(&CKey::AllowCreate).unwrap_or(true)
+    }
+}
